@@ -20,7 +20,7 @@ func registerC03() {
 		Rule: "family filetypes: all 256 file_id.type values (Decode, NewFile and the 17x17 accessor matrix: exactly the matching accessor returns a non-nil container, " +
 			"all others an error; the 239 values without a container must be rejected); family routing: for each of the 17 file types, PRNG interleavings of messages drawn from all " +
 			"101 known types and unknown numbers, each carrying a unique serial number, compared with the routing the declared container types prescribe (reflection on the public " +
-			"container structs: *XMsg = single-valued slot holding the last, []*XMsg = ordered slot); every file type without a container is also placed inside chains (good+X, X+good, good+X+good): DecodeChained must return an error and no container for X; non-trivial: at least one hosted and one non-hosted message; distinct by stream digest",
+			"container structs: *XMsg = single-valued slot holding the last, []*XMsg = ordered slot); every file type without a container is also placed inside chains (good+X, X+good, good+X+good): DecodeChained must return an error and no container for X; family very-long: files with more than 2^22 (thorough: up to 2^24 + 5) one-byte filler records - of a message the file type does not hold, or of hrv, which it holds - in front of records, a lap and the activity message, all of which must reach their containers; non-trivial: at least one hosted and one non-hosted message; distinct by stream digest",
 		Assume: []string{
 			"a repeated file_id restates the same type (a file_id that changes the type in mid-stream is not defined by the statement and not generated)",
 			"messages of known types that no container hosts are unobservable through the API; for them only 'no effect on the others' is checked",
@@ -31,8 +31,76 @@ func registerC03() {
 			{Name: "routing", N: func(t string) uint64 { return tierN(t, 17*3000, 17*60000) }, Run: c03Routing},
 			{Name: "dup-fields", N: func(t string) uint64 { return tierN(t, 17*60, 17*2000) }, Run: c03DupFields},
 			{Name: "fileid-change", N: func(t string) uint64 { return tierN(t, 17*400, 17*10000) }, Run: c03FileIdChange},
+			{Name: "very-long", N: func(t string) uint64 { return tierN(t, 2, 6) }, Run: c03VeryLong},
 		},
 	})
+}
+
+// c03VeryLong: a file with more than 2^22 (thorough: up to 2^24 + 5) data records in front of
+// the messages that matter: filler records of a message the file type does not hold (zero-field
+// definition: one byte each), or - case 1 - of one it does hold (hrv, the lightest message),
+// then one message of several held types. Every held message must reach its container, however
+// many records came before it.
+func c03VeryLong(c *lib.Ctx, idx uint64) {
+	n := []int{1<<22 + 3, 1<<22 + 1, 1<<23 + 1, 1<<24 + 5, 1<<22 + 100000, 1 << 22}[idx%6]
+	held := idx%2 == 1
+	filler := uint16(28) // schedule: not part of an activity file
+	if held {
+		filler = 78 // hrv
+	}
+	tail := &ref.Plan{HeaderSize: 14, Proto: 0x20, ProfVer: 2115}
+	tail.Records = append(tail.Records,
+		ref.Record{IsDef: true, Local: 0, Global: 0, Fields: []ref.FieldDef{{Num: 0, Size: 1, Base: 0}}},
+		ref.Record{Local: 0, Data: [][]byte{{4}}},
+		ref.Record{IsDef: true, Local: 1, Global: filler})
+	head := tail.DataBytes()
+	after := &ref.Plan{}
+	after.Records = append(after.Records,
+		ref.Record{IsDef: true, Local: 2, Global: 20, Fields: []ref.FieldDef{{Num: 3, Size: 1, Base: 0x02}}},
+		ref.Record{Local: 2, Data: [][]byte{{101}}},
+		ref.Record{Local: 2, Data: [][]byte{{102}}},
+		ref.Record{IsDef: true, Local: 3, Global: 19, Fields: []ref.FieldDef{{Num: 254, Size: 2, Base: 0x84}}},
+		ref.Record{Local: 3, Data: [][]byte{{7, 0}}},
+		ref.Record{IsDef: true, Local: 4, Global: 34, Fields: []ref.FieldDef{{Num: 1, Size: 2, Base: 0x84}}},
+		ref.Record{Local: 4, Data: [][]byte{{1, 0}}})
+	rest := after.DataBytes()
+	data := make([]byte, 0, len(head)+n+len(rest))
+	data = append(data, head...)
+	for i := 0; i < n; i++ {
+		data = append(data, 0x01) // data record of local type 1, no fields
+	}
+	data = append(data, rest...)
+	b := append(tail.HeaderBytes(len(data)), data...)
+	crc := fastCRC(0, b)
+	b = append(b, byte(crc), byte(crc>>8))
+	c.SetInflight(b[:64])
+	c.Tick()
+	f, derr, out := lib.GuardedDecode(b)
+	c.Eval()
+	c.Tick()
+	if out.Panicked || out.Hang {
+		c.Violation(b[:64], "Decode panicked/hung on a file with %d filler records: %s", n, out.Panic)
+		return
+	}
+	if derr != nil {
+		c.Violation(b[:64], "Decode rejected a well-formed file with %d one-byte records of message %d in front of its records, lap and activity message: %v", n, filler, derr)
+		return
+	}
+	act, err := f.Activity()
+	if err != nil {
+		c.Violation(b[:64], "Activity() failed: %v", err)
+		return
+	}
+	if len(act.Records) != 2 || act.Records[0].HeartRate != 101 || act.Records[1].HeartRate != 102 || len(act.Laps) != 1 || act.Laps[0].MessageIndex != 7 || act.Activity == nil || act.Activity.NumSessions != 1 {
+		c.Violation(b[:64], "after %d filler records of message %d: %d records, %d laps, activity message present: %v (want 2, 1, true with their values)", n, filler, len(act.Records), len(act.Laps), act.Activity != nil)
+		return
+	}
+	if held && len(act.Hrvs) != n {
+		c.Violation(b[:64], "%d hrv records written, %d held by the container", n, len(act.Hrvs))
+		return
+	}
+	c.Count("files_with_more_than_4_million_records", 1)
+	c.Nontrivial([]byte(fmt.Sprint("very-long", n, held)))
 }
 
 func c03FileType(c *lib.Ctx, idx uint64) {
